@@ -5,7 +5,8 @@ from __future__ import annotations
 import ast
 import string
 
-from ..core import AnalysisError, Check, Scope, dotted, norm, strip_docstring, walk_no_nested
+from ..core import expand_locals, single_defs, AnalysisError, Check, Scope, dotted, norm, strip_docstring, walk_no_nested
+from ..interp import Sym, SymInterp
 from ..variants import Variant
 from .c06 import call_site_visibility
 
@@ -60,8 +61,9 @@ class C07(Check):
                 emit_loops.append(lp)
         if not emit_loops:
             raise AnalysisError(f"{GEN}: emission loop for derived quantities / reactions not found")
+        defs = single_defs(gen)
         for lp in emit_loops:
-            it = norm(lp.iter)
+            it = norm(expand_locals(lp.iter, defs))
             kinds = [k for k in ("derived", "reaction", "rxn") if k in norm(lp)]
             cons = f"emission-loop over {it[:45]}"
             if it in TOPO:
@@ -80,7 +82,7 @@ class C07(Check):
                 self.holds("G1", MOD, GEN, "single-ordered-pass", emit_loops[0], "derived quantities and reactions share one dependency-ordered pass")
             else:
                 self.violated("G1", MOD, GEN, "single-ordered-pass", emit_loops[0], "only one component kind is emitted in the ordered pass")
-        dl = [s for s in body if isinstance(s, ast.For) and "stoichiometries_to_sympy" in norm(s)]
+        dl = [s for s in body if isinstance(s, (ast.For, ast.Expr)) and "stoichiometries_to_sympy" in norm(s)]
         if dl and body.index(dl[0]) > max(body.index(l) for l in emit_loops):
             self.holds("G1", MOD, GEN, "sums-after-rates", dl[0], "derivative sums are emitted after all rates and derived quantities")
         else:
@@ -89,6 +91,9 @@ class C07(Check):
         fill = [s for s in body if isinstance(s, ast.For) and norm(s.iter) == "model.get_parameter_names()" and
                 any(isinstance(x, ast.Assign) and norm(x.targets[0]).startswith("parameters[") for x in ast.walk(s))]
         src = [s for s in body if isinstance(s, ast.Assign) and norm(s.targets[0]) == "parameters"]
+        merged = [s for s in body if isinstance(s, ast.AugAssign) and norm(s.target) == "parameters" and isinstance(s.op, ast.BitOr)
+                  and "model.get_parameter_names()" in norm(s.value) and "all_parameter_values" in norm(s.value)]
+        fill = fill or merged
         if fill or (src and "all_parameter_values" in norm(src[0].value)):
             self.holds("G2", MOD, GEN, "parameters-cover-initial-assignments", fill[0] if fill else src[0], "every name of get_parameter_names() gets a value (assignment-defined ones from the cached frozen values)")
         else:
@@ -96,24 +101,31 @@ class C07(Check):
                           f"emitted parameters come from `{norm(src[0].value) if src else '?'}` only: parameters defined by an initial assignment are never assigned",
                           witness="add_parameter('k', InitialAssignment(f, ['x'])) used by a reaction: generated code reads undefined k")
         # ---- G3
-        ro = [s for s in body if isinstance(s, ast.Assign) and norm(s.targets[0]) == "ret_order"]
-        if not ro:
-            raise AnalysisError(f"{GEN}: ret_order not found")
-        v = ro[0].value
-        filt = isinstance(v, ast.ListComp) and v.generators[0].ifs
-        if filt or norm(v) not in ("list(variables)", "[i for i in variables]"):
-            self.violated("G3", MOD, GEN, "return-one-per-variable", ro[0],
-                          f"`{norm(ro[0])}` filters the variables: a variable that no reaction touches is missing from the returned derivatives",
+        rcall = [c for c in ast.walk(gen) if isinstance(c, ast.Call) and norm(c.func) == "return_template.format" and c.args]
+        if not rcall:
+            raise AnalysisError(f"{GEN}: return_template.format(..) not found")
+        rexp = expand_locals(rcall[0].args[0], defs)
+        self.ret_expr = rexp
+        over_vars = [g for n in ast.walk(rexp) if isinstance(n, (ast.ListComp, ast.GeneratorExp)) for g in n.generators if norm(g.iter) in ("variables", "model.get_initial_conditions()", "list(variables)")]
+        filt = [g for g in over_vars if g.ifs]
+        node3 = ([s for s in body if isinstance(s, ast.Assign) and any(isinstance(n, (ast.ListComp, ast.GeneratorExp)) and any(g.ifs and norm(g.iter) == "variables" for g in n.generators)
+                                                                        for n in ast.walk(s.value))] or [rcall[0]])[0]
+        if not over_vars:
+            self.undecided_ob("G3", MOD, GEN, "return-one-per-variable", rcall[0], f"returned sequence `{norm(rexp)[:80]}` is not built from the variables")
+        elif filt:
+            self.violated("G3", MOD, GEN, "return-one-per-variable", node3,
+                          f"`{norm(rexp)[:90]}` filters the variables: a variable that no reaction touches is missing from the returned derivatives",
                           witness="variables x, y with one reaction on x: generated model returns one value for a two-variable state")
         else:
-            self.holds("G3", MOD, GEN, "return-one-per-variable", ro[0], "returns one derivative per variable in declaration order")
-        rt = [s for s in body if isinstance(s, ast.Assign) and norm(s.targets[0]) == "ret"]
-        if rt and "'()'" in norm(rt[0].value):
-            self.violated("G3", MOD, GEN, "return-empty-placeholder", rt[0],
+            self.holds("G3", MOD, GEN, "return-one-per-variable", node3, "returns one derivative per variable in declaration order")
+        placeholder = [n for n in ast.walk(rexp) if isinstance(n, ast.IfExp) and any(isinstance(x, ast.Constant) and x.value == "()" for x in (n.body, n.orelse))]
+        node3b = ([s for s in body if isinstance(s, ast.Assign) and "'()'" in norm(s.value)] or [rcall[0]])[0]
+        if placeholder:
+            self.violated("G3", MOD, GEN, "return-empty-placeholder", node3b,
                           "without reactions the generated function returns `()` instead of one zero per variable",
                           witness="a model with variables and no reactions: generated model returns () for a non-empty state")
-        elif rt:
-            self.holds("G3", MOD, GEN, "return-empty-placeholder", rt[0], "no special-cased empty return")
+        else:
+            self.holds("G3", MOD, GEN, "return-empty-placeholder", node3b, "no special-cased empty return")
         # ---- G4 / G5 / G7 per back end
         for fname, lang in BACKENDS.items():
             f = mod.func(fname)
@@ -170,50 +182,77 @@ class C07(Check):
                 self.holds("G7", MOD, fname, "free-parameters", calls[0], "free parameters are forwarded to the generator and appended to the signature")
             else:
                 self.violated("G7", MOD, fname, "free-parameters", calls[0], f"{lang} back end does not forward / declare the free parameters")
-        pops = [s for s in body if isinstance(s, ast.If) and norm(s.test) == "free_parameters is not None" and "parameters.pop(key)" in norm(s)]
-        emit_p = [i for i, s in enumerate(body) if isinstance(s, ast.If) and norm(s.test) == "len(parameters) > 0"]
+        pops = [s for s in body if isinstance(s, ast.If) and norm(s.test) == "free_parameters is not None" and ("parameters.pop(key)" in norm(s) or "del parameters[key]" in norm(s))]
+        emit_p = [i for i, s in enumerate(body) if isinstance(s, ast.If) and norm(s.test) in ("len(parameters) > 0", "parameters", "len(parameters) != 0")]
         if pops and emit_p and body.index(pops[0]) < emit_p[0]:
             self.holds("G7", MOD, GEN, "free-parameters-not-assigned", pops[0], "free parameters are removed before the parameter assignments are emitted")
         else:
             self.violated("G7", MOD, GEN, "free-parameters-not-assigned", gen, "free parameters are still assigned inside the generated function (shadowing the extra inputs)")
-        # ---- G6
-        for c in [c for c in walk_no_nested(gen) if isinstance(c, ast.Call) and dotted(c.func).split(".")[-1] == "fn_to_sympy"]:
-            ok, why = call_site_visibility(c, sc, gen)
-            stmt = sc.stmt_of(c)
-            blk = [b for p, fld, ch in sc.ancestors(stmt) for b in [getattr(p, fld, None)] if isinstance(b, list) and ch in b]
-            raises = False
-            # the enclosing branch (per component kind) must raise when expr is still None
-            for p, fld, ch in sc.ancestors(c):
-                if isinstance(p, ast.If) and fld == "body" and ("derived" in norm(p.test) or "rxn" in norm(p.test) or "reaction" in norm(p.test)):
-                    raises = any(isinstance(s, ast.If) and norm(s.test) == "expr is None" and any(isinstance(x, ast.Raise) for x in s.body) for s in p.body[1:])
-                    break
-            cons = f"untranslatable@{norm(c.args[0])}"
-            if ok and raises:
-                self.holds("G6", MOD, GEN, cons, c, "a None translation raises ValueError before anything is emitted for it")
+        # ---- G6: on every path of one iteration over the sorted order, whatever is emitted was tested against None first
+        order_loops = [l for l in body if isinstance(l, ast.For) and any(isinstance(c, ast.Call) and dotted(c.func).split(".")[-1] == "fn_to_sympy" for c in ast.walk(l))]
+        if not order_loops:
+            raise AnalysisError(f"{GEN}: emission loop for derived quantities / reactions not found")
+        ol = order_loops[0]
+        interp = SymInterp()
+        o = interp.block(ol.body, [Sym()])
+        iter_paths = list(o.normal) + list(o.continues)
+        anchor6 = [c for c in walk_no_nested(gen) if isinstance(c, ast.Call) and dotted(c.func).split(".")[-1] == "fn_to_sympy"]
+        emitted: dict[str, bool] = {}
+        for stp in iter_paths:
+            for e in stp.events:
+                if e[0] != "call" or not e[1].startswith("source.append(assignment_template.format("):
+                    continue
+                c = ast.parse(e[1], mode="eval").body.args[0]
+                kwv = {k.arg: k.value for k in c.keywords}.get("v")
+                inner = kwv.args[0] if isinstance(kwv, ast.Call) and norm(kwv.func) == "sympy_inline_fn" and kwv.args else kwv
+                txt = norm(inner)
+                tested = (f"{txt} is None", False) in stp.conds or (f"{txt} is not None", True) in stp.conds
+                for f2s in [x for x in ast.walk(inner) if isinstance(x, ast.Call) and dotted(x.func).split(".")[-1] == "fn_to_sympy" and x.args]:
+                    k = norm(f2s.args[0])
+                    emitted[k] = emitted.get(k, True) and tested
+        if len(emitted) < 2:
+            raise AnalysisError(f"{GEN}: emission of translated derived quantities / reactions not recognised")
+        for k, ok in sorted(emitted.items()):
+            cons = f"untranslatable@{k}"
+            if ok:
+                self.holds("G6", MOD, GEN, cons, anchor6[0], "a None translation raises ValueError before anything is emitted for it")
             else:
-                self.violated("G6", MOD, GEN, cons, c, "a failed translation does not make generation raise",
+                self.violated("G6", MOD, GEN, cons, anchor6[0], "a failed translation does not make generation raise",
                               witness="a rate law using an unsupported construct is emitted as `None`")
         st = self.prog.module("meta/sympy_tools.py").func("stoichiometries_to_sympy")
-        adds = [a for a in ast.walk(st) if isinstance(a, ast.Assign) and norm(a.targets[0]) == "expr" and isinstance(a.value, ast.BinOp)]
-        want = {"expr + sympy_fn * sympy.Symbol(rxn_name)", "expr + rxn_stoich * sympy.Symbol(rxn_name)"}
-        got = {norm(a.value) for a in adds}
-        if got == want:
-            self.holds("G8", "meta/sympy_tools.py", st.name, "sum-of-coefficient-times-rate", adds[0], "expr accumulates + coefficient * Symbol(reaction) for computed and numeric coefficients")
+        lps = [l for l in strip_docstring(st.body) if isinstance(l, ast.For) and isinstance(l.target, ast.Tuple) and len(l.target.elts) == 2]
+        if not lps:
+            raise AnalysisError("stoichiometries_to_sympy: loop over the stoichiometry not found")
+        rn, rs = norm(lps[0].target.elts[0]), norm(lps[0].target.elts[1])
+        acc_names = [norm(s_.targets[0]) for s_ in strip_docstring(st.body) if isinstance(s_, ast.Assign) and isinstance(s_.targets[0], ast.Name) and "Integer(0)" in norm(s_.value)]
+        acc = acc_names[0] if acc_names else "expr"
+        o8 = SymInterp().block(lps[0].body, [Sym()])
+        got = set()
+        for stp in list(o8.normal) + list(o8.continues):
+            val = stp.get(acc)
+            derived = any(c == f"isinstance({rs}, Derived)" and p_ for c, p_ in stp.conds)
+            want_c = f"fn_to_sympy({rs}.fn, origin=origin, model_args=list_of_symbols({rs}.args))" if derived else rs
+            got.add("ok" if val in (f"{acc} + {want_c} * sympy.Symbol({rn})", f"{acc} + sympy.Symbol({rn}) * {want_c}") else f"{'Derived' if derived else 'numeric'}: {val}")
+        adds = [a_ for a_ in ast.walk(st) if isinstance(a_, ast.Assign) and norm(a_.targets[0]) == acc and isinstance(a_.value, ast.BinOp)]
+        if got == {"ok"} and len(o8.normal) + len(o8.continues) >= 2 and norm(lps[0].iter) == "stoichs.items()":
+            self.holds("G8", "meta/sympy_tools.py", st.name, "sum-of-coefficient-times-rate", adds[0] if adds else st, "expr accumulates + coefficient * Symbol(reaction) for computed and numeric coefficients")
         else:
-            self.violated("G8", "meta/sympy_tools.py", st.name, "sum-of-coefficient-times-rate", adds[0] if adds else st, f"derivative sums are built from {sorted(got)} instead of + coefficient * rate",
+            self.violated("G8", "meta/sympy_tools.py", st.name, "sum-of-coefficient-times-rate", adds[0] if adds else st, f"derivative sums are built from {sorted(got - {'ok'})} instead of + coefficient * rate",
                           witness="the generated model returns derivatives with a flipped sign / without a coefficient")
-        fill = [l for l in body if isinstance(l, ast.For) and norm(l.iter) == "model.get_raw_reactions().items()" and "diff_eqs" in norm(l)]
-        okf = fill and "for var_name, factor in rxn.stoichiometry.items():" in norm(fill[0]).replace("\n", " ") and "diff_eqs.setdefault(var_name, {})[rxn_name] = factor" in norm(fill[0]) \
+        defs = single_defs(gen)
+        fill = [l for l in body if isinstance(l, ast.For) and norm(expand_locals(l.iter, defs)) == "model.get_raw_reactions().items()" and "diff_eqs" in norm(l)]
+        okf = fill and "for var_name, factor in rxn.stoichiometry.items():" in norm(fill[0]).replace("\n", " ") and ("diff_eqs.setdefault(var_name, {})[rxn_name] = factor" in norm(fill[0])
+                 or ("diff_eqs[var_name][rxn_name] = factor" in norm(fill[0]) and norm(defs.get("diff_eqs")) == "defaultdict(dict)")) \
             and not any(isinstance(x, (ast.If, ast.Continue, ast.Break)) for x in ast.walk(fill[0]))
         if okf:
             self.holds("G8", MOD, GEN, "every-stoichiometry-entry", fill[0], "diff_eqs[variable][reaction] = coefficient for every entry of every reaction")
         else:
             self.violated("G8", MOD, GEN, "every-stoichiometry-entry", fill[0] if fill else gen, "not every (reaction, variable) stoichiometry entry reaches the derivative sums")
         asg = [c for c in ast.walk(gen) if isinstance(c, ast.Call) and norm(c.func) == "assignment_template.format" and "dt" in norm(c)]
-        retn = [g for g in ast.walk(gen) if isinstance(g, ast.GeneratorExp) and isinstance(g.elt, ast.JoinedStr) and "ret_order" in norm(g.generators[0].iter)]
+        retn = [n.elt for n in ast.walk(self.ret_expr) if isinstance(n, (ast.GeneratorExp, ast.ListComp)) and isinstance(n.elt, ast.JoinedStr)]
         ka = {k.arg: k.value for k in asg[0].keywords}.get("k") if asg else None
         pat_a = "".join(v.value if isinstance(v, ast.Constant) else "{}" for v in ka.values) if isinstance(ka, ast.JoinedStr) else None
-        pat_r = "".join(v.value if isinstance(v, ast.Constant) else "{}" for v in retn[0].elt.values) if retn else None
+        pat_r = "".join(v.value if isinstance(v, ast.Constant) else "{}" for v in retn[0].values) if retn else None
         if pat_a is not None and pat_a == pat_r:
             self.holds("G9", MOD, GEN, "returned-names-are-assigned", asg[0], f"assigned and returned as `{pat_a}`")
         else:
